@@ -18,6 +18,10 @@ use arrharness::*;
 
 trait Elem: Numeric {
     const FLOAT: bool;
+    /// unit round-off of the element type (tolerances of the float comparisons are multiples of it)
+    const EPS: f64 = f64::EPSILON;
+    /// smallest normal magnitude (below it a value carries fewer bits and "constant ratio to rounding accuracy" has no meaning)
+    const MINPOS: f64 = f64::MIN_POSITIVE;
     fn of_f(v: f64) -> Self { <Self as Numeric>::from_f64(v) }
     fn f(&self) -> f64 { <Self as Numeric>::to_f64(self) }
 }
@@ -25,6 +29,8 @@ impl Elem for i32 { const FLOAT: bool = false; }
 impl Elem for i64 { const FLOAT: bool = false; }
 impl Elem for u8 { const FLOAT: bool = false; }
 impl Elem for f64 { const FLOAT: bool = true; }
+/// only used by the part-2 streams (types back to back, extreme magnitudes): the crate computes in f64 and casts once
+impl Elem for f32 { const FLOAT: bool = true; const EPS: f64 = f32::EPSILON as f64; const MINPOS: f64 = f32::MIN_POSITIVE as f64; }
 
 const TYPES: [&str; 4] = ["i32", "i64", "u8", "f64"];
 
@@ -48,9 +54,77 @@ fn arr_t<T: Elem>(s: &str) -> Array<T> {
     Array::new(elems.into_iter().map(|x| T::of_f(x as f64)).collect(), shape).expect("harness: malformed array literal")
 }
 
-/// `n` or `n/d` -> f64 (exact for the dyadic values the generator emits; correctly rounded otherwise)
+/// `n` or `n/d` -> f64 (exact for the dyadic values the generator emits; correctly rounded otherwise).  Parts that do not fit an i64
+/// (magnitudes to 1.8e308, denominators to 2^1074 and beyond) go through an exact big-integer division, correctly rounded as well.
 fn rat(s: &str) -> Option<f64> {
-    match s.split_once('/') { Some((n, d)) => Some(n.parse::<i64>().ok()? as f64 / d.parse::<i64>().ok()? as f64), None => Some(s.parse::<i64>().ok()? as f64) }
+    match s.split_once('/') {
+        Some((n, d)) => match (n.parse::<i64>(), d.parse::<i64>()) { (Ok(n), Ok(d)) => Some(n as f64 / d as f64), _ => big::ratio(n, d) },
+        None => match s.parse::<i64>() { Ok(v) => Some(v as f64), Err(_) => big::ratio(s, "1") },
+    }
+}
+/// both parts of every argument fit an i64 (the small scope); otherwise the big-integer path is in play
+fn small_args(a: &[&str]) -> bool { a.iter().all(|s| s.split('/').all(|p| p.parse::<i64>().is_ok())) }
+
+/// minimal unsigned big integers (little-endian base 2^32) — just enough for `numerator / denominator -> f64`, correctly rounded
+mod big {
+    use std::cmp::Ordering;
+    type B = Vec<u32>;
+    fn from_dec(s: &str) -> Option<B> {
+        if s.is_empty() { return None }
+        let mut v: B = vec![];
+        for c in s.bytes() {
+            if !c.is_ascii_digit() { return None }
+            let mut carry = (c - b'0') as u64;
+            for limb in v.iter_mut() { let x = *limb as u64 * 10 + carry; *limb = x as u32; carry = x >> 32; }
+            if carry > 0 { v.push(carry as u32); }
+        }
+        Some(v)
+    }
+    fn bits(v: &B) -> usize { match v.iter().rposition(|&x| x != 0) { None => 0, Some(i) => i * 32 + (32 - v[i].leading_zeros() as usize) } }
+    fn shl(v: &B, k: usize) -> B {
+        let (w, b) = (k / 32, k % 32);
+        let mut out = vec![0u32; v.len() + w + 1];
+        for (i, &x) in v.iter().enumerate() { let y = (x as u64) << b; out[i + w] |= y as u32; out[i + w + 1] |= (y >> 32) as u32; }
+        out
+    }
+    fn cmp(a: &B, b: &B) -> Ordering {
+        for i in (0..a.len().max(b.len())).rev() {
+            let (x, y) = (a.get(i).copied().unwrap_or(0), b.get(i).copied().unwrap_or(0));
+            if x != y { return x.cmp(&y) }
+        }
+        Ordering::Equal
+    }
+    fn sub_assign(a: &mut B, b: &B) {
+        let mut borrow = 0i64;
+        for i in 0..a.len() {
+            let mut x = a[i] as i64 - b.get(i).copied().unwrap_or(0) as i64 - borrow;
+            if x < 0 { x += 1 << 32; borrow = 1 } else { borrow = 0 }
+            a[i] = x as u32;
+        }
+    }
+    /// v * 2^e without intermediate overflow / underflow
+    fn ldexp(mut v: f64, mut e: i64) -> f64 {
+        while e > 900 { v *= 2f64.powi(900); e -= 900; }
+        while e < -900 { if v == 0.0 { return v } v *= 2f64.powi(-900); e += 900; }
+        v * 2f64.powi(e as i32)
+    }
+    pub fn ratio(n: &str, d: &str) -> Option<f64> {
+        let (neg, n) = match n.strip_prefix('-') { Some(r) => (true, r), None => (false, n) };
+        let (mut nb, mut db) = (from_dec(n)?, from_dec(d)?);
+        if bits(&db) == 0 { return None }
+        if bits(&nb) == 0 { return Some(0.0) }
+        // scale so that the integer quotient has 71 or 72 bits, divide bit by bit, keep a sticky bit for the remainder
+        let k: i64 = 71 - (bits(&nb) as i64 - bits(&db) as i64);
+        if k >= 0 { nb = shl(&nb, k as usize) } else { db = shl(&db, (-k) as usize) }
+        let mut q: u128 = 0;
+        for bit in (0..=72usize).rev() {
+            let t = shl(&db, bit);
+            if cmp(&nb, &t) != Ordering::Less { nb.resize(nb.len().max(t.len()), 0); sub_assign(&mut nb, &t); q |= 1u128 << bit; }
+        }
+        if bits(&nb) > 0 { q |= 1 }
+        let v = ldexp(q as f64, -k);
+        Some(if neg { -v } else { v })
+    }
 }
 fn opt_rat(s: &str) -> Option<Option<f64>> { if s == "none" { Some(None) } else { rat(s).map(Some) } }
 fn opt_usize(s: &str) -> Option<Option<usize>> { if s == "none" { Some(None) } else { s.parse().ok().map(Some) } }
@@ -81,10 +155,12 @@ fn eval_expr(s: &[u8], pos: &mut usize, st: f64, tp: f64, b: f64) -> Option<f64>
             while *s.get(*pos)? != b')' { *pos += 1; }
             let q = std::str::from_utf8(&s[start..*pos]).ok()?;
             *pos += 1;
-            let (n, d) = q.split_once('/')?;
-            let (n, d): (i64, i64) = (n.parse().ok()?, d.parse().ok()?);
-            // the Rust code has the exponent either as `1. / (num - delta) as f64` or as `i as f64`
-            let e = if d == 1 { n as f64 } else { n as f64 / d as f64 };
+            let (ns, ds) = q.split_once('/')?;
+            // the Rust code has the exponent either as `1. / (num - delta) as f64` or as `i as f64` (or, for logspace, as the argument itself)
+            let e = match (ns.parse::<i64>(), ds.parse::<i64>()) {
+                (Ok(n), Ok(d)) => if d == 1 { n as f64 } else { n as f64 / d as f64 },
+                _ => big::ratio(ns, ds)?,
+            };
             Some(x.powf(e))
         }
         _ => None,
@@ -132,6 +208,9 @@ fn parse_rat_answer(expected: &str) -> Option<Vec<f64>> {
     Some(v)
 }
 
+/// |ln(last/first)| for ranges beyond e^50 (outside every case of the small scope, whose tolerances stay as they were)
+fn range_term(first: f64, last: f64) -> f64 { let l = (last / first).abs().ln().abs(); if l.is_finite() && l > 50.0 { 2.0 * l } else { 0.0 } }
+fn small_range(first: f64, last: f64) -> bool { range_term(first, last) == 0.0 && first.abs() >= f64::MIN_POSITIVE && last.abs() >= f64::MIN_POSITIVE }
 fn ulp_scale(scale: f64) -> f64 { scale.abs().max(f64::MIN_POSITIVE) * f64::EPSILON }
 
 /// linspace / arange: observed against the exact rationals of the model.
@@ -149,12 +228,13 @@ fn seq_verdict<T: Elem>(r: Result<Array<T>, ArrayError>, expected: &str, tol: f6
         let (o, x) = (e[i].f(), want[i]);
         let must_be_exact = exact_all || i == 0 || (endpoint && i == n - 1);
         if T::FLOAT {
-            if must_be_exact { if !same_f64(o, x) { return mism(format!("position {i}: {o:?} but exactly {x:?} is required")); } }
+            if must_be_exact { if !same_f64(o, T::of_f(x).f()) { return mism(format!("position {i}: {o:?} but exactly {x:?} is required")); } }
             else if !((o - x).abs() <= tol) { return mism(format!("position {i}: {o:?} differs from the exact value {x:?} by more than {tol:e}")); }
         } else {
             // `N::from(f64)` truncates: accept the truncation of any value within tol of the exact one
             let (lo, hi) = (T::of_f(x - tol).f(), T::of_f(x + tol).f());
-            let ok = if must_be_exact { o == T::of_f(x).f() } else { o == lo || o == hi || o == T::of_f(x).f() };
+            // (truncation is monotone: `o` is the truncation of some value within tol of x iff it lies between the truncated ends)
+            let ok = if must_be_exact { o == T::of_f(x).f() } else { o == lo || o == hi || o == T::of_f(x).f() || (o >= lo.min(hi) && o <= lo.max(hi)) };
             if !ok { return mism(format!("position {i}: {o:?} is not the truncation of {x:?}")); }
         }
     }
@@ -188,11 +268,13 @@ fn pow_seq_verdict<T: Elem>(r: Result<Array<T>, ArrayError>, expected: &str, st:
         let w = T::of_f(v).f();
         if !same_f64(e[i].f(), w) { return mism(format!("position {i}: {:?} but the model's expression `{}` evaluates to {:?}", e[i].f(), exprs[i], w)); }
     }
-    if T::FLOAT && n >= 2 && e.iter().all(|x| x.f().is_finite() && x.f() != 0.0) {
-        if !same_f64(e[0].f(), first) { return mism(format!("first element {:?}, start value {:?}", e[0].f(), first)); }
-        if endpoint && !same_f64(e[n - 1].f(), last) { return mism(format!("last element {:?}, stop value {:?}", e[n - 1].f(), last)); }
+    // (subnormal elements carry fewer bits: only count, first, last and the bit-exact expression are compared there)
+    if T::FLOAT && n >= 2 && e.iter().all(|x| x.f().is_finite() && x.f() != 0.0) && (small_range(first, last) || e.iter().all(|x| x.f().abs() >= T::MINPOS)) {
+        if !same_f64(e[0].f(), T::of_f(first).f()) { return mism(format!("first element {:?}, start value {:?}", e[0].f(), first)); }
+        if endpoint && !same_f64(e[n - 1].f(), T::of_f(last).f()) { return mism(format!("last element {:?}, stop value {:?}", e[n - 1].f(), last)); }
         // constant ratio: powf is accurate to ~1 ulp, the rounding of the common ratio is amplified by the exponent
-        let tol = 8.0 * (n as f64 + 4.0) * f64::EPSILON;
+        // beyond a range of e^50 the rounding of the exponent 1/d is amplified by ln(stop/start): x^(1/d + delta) = x^(1/d) * e^(delta ln x)
+        let tol = (8.0 * (n as f64 + 4.0) + range_term(first, last)) * T::EPS;
         let q0 = e[1].f() / e[0].f();
         for i in 1..n - 1 {
             let q = e[i + 1].f() / e[i].f();
@@ -255,7 +337,8 @@ fn run<T: Elem>(op: &str, a: &[&str], expected: &str) -> Option<Verdict> {
             let r = try_run(move || Array::<T>::linspace(sv, tv, n, e));
             match r {
                 Err(_) => cmp("panic".into()),
-                Ok(r) => Some(seq_verdict(r, expected, 4.0 * ulp_scale(s.abs().max(t.abs())), false, e.unwrap_or(true))),
+                // beyond the i64 scope the exact rationals of the model are converted by the big-integer division (another half ulp)
+                Ok(r) => Some(seq_verdict(r, expected, (if small_args(&a[..2]) { 4.0 } else { 8.0 }) * ulp_scale(s.abs().max(t.abs())) * (T::EPS / f64::EPSILON), false, e.unwrap_or(true))),
             }
         }
         "geomspace" => {
@@ -287,8 +370,10 @@ fn run<T: Elem>(op: &str, a: &[&str], expected: &str) -> Option<Verdict> {
                             for i in 0..num {
                                 let x = sv.f() + (i as f64) * (tv.f() - sv.f()) / d;
                                 let w = bf.powf(x);
-                                let tol = 64.0 * (num as f64) * f64::EPSILON;
-                                if w.is_finite() && w != 0.0 && !(((el[i].f() - w) / w).abs() <= tol) {
+                                // the native reference itself rounds its exponent: relative error |x| ln(b) eps/2, negligible in the small scope (|x| <= 8)
+                                let exp_term = { let t = 2.0 * x.abs() * bf.ln(); if t > 50.0 { t } else { 0.0 } };
+                                let tol = (64.0 * (num as f64) + range_term(bf.powf(sv.f()), bf.powf(tv.f())) + exp_term) * T::EPS;
+                                if w.is_finite() && w != 0.0 && w.abs() >= T::MINPOS && !(((el[i].f() - w) / w).abs() <= tol) {
                                     return Some(Verdict::Mismatch { observed: format!("{:?}", el[i].f()), detail: format!("position {i}: base^exponent is {w:?} (relative tolerance {tol:e})") });
                                 }
                             }
@@ -438,13 +523,47 @@ fn run_v<T: VElem>(op: &str, a: &[&str], expected: &str) -> Option<Verdict> {
     }
 }
 
+thread_local! {
+    /// the previous case of this thread (op, arguments, model answer, what the crate answered) — for the A–B–A discipline
+    static PREV: std::cell::RefCell<Option<(String, Vec<String>, String, String)>> = const { std::cell::RefCell::new(None) };
+    static SEQ: std::cell::Cell<u64> = const { std::cell::Cell::new(0) };
+}
+fn verdict_text(v: &Option<Verdict>) -> String {
+    match v { None => "harness-error".into(), Some(Verdict::Match(o)) => format!("match {o}"), Some(Verdict::Open(o)) => format!("open {o}"), Some(Verdict::Mismatch { observed, .. }) => format!("mismatch {observed}") }
+}
+
+/// A–B–A: every third case B is followed by a re-run of the case A executed just before it; the crate must answer A exactly as it did
+/// the first time (a memo / cache that survives a call makes the answer depend on the call in between).
 fn exec(op: &str, args: &[&str], expected: &str) -> Option<Verdict> {
+    let mut out = exec_case(op, args, expected);
+    let seq = SEQ.with(|s| { let x = s.get() + 1; s.set(x); x });
+    let prev = PREV.with(|p| p.borrow_mut().take());
+    if let Some((pop, pargs, pexp, ptext)) = &prev {
+        let differs = pop != op || pargs.iter().map(String::as_str).ne(args.iter().copied());
+        if differs && seq % 3 == 0 && !matches!(out, Some(Verdict::Mismatch { .. }) | None) {
+            let pa: Vec<&str> = pargs.iter().map(String::as_str).collect();
+            let again = verdict_text(&exec_case(pop, &pa, pexp));
+            if again != *ptext {
+                out = Some(Verdict::Mismatch { observed: format!("A-B-A: `{} {}` answered `{}` before this case and `{}` after it", pop, truncate(&pa.join(" "), 300), truncate(ptext, 300), truncate(&again, 300)),
+                                               detail: "the answer to a call must not depend on the calls made before it (hidden state)".into() });
+            }
+        }
+    }
+    // huge answers are not kept (the re-run would double their cost)
+    let keep = expected.len() <= 20_000 && args.iter().map(|a| a.len()).sum::<usize>() <= 20_000;
+    let text = verdict_text(&out);
+    PREV.with(|p| *p.borrow_mut() = if keep { Some((op.to_string(), args.iter().map(|a| a.to_string()).collect(), expected.to_string(), text)) } else { None });
+    out
+}
+
+fn exec_case(op: &str, args: &[&str], expected: &str) -> Option<Verdict> {
     let (ty, rest) = args.split_first()?;
     match *ty {
         "i32" => run::<i32>(op, rest, expected),
         "i64" => run::<i64>(op, rest, expected),
         "u8" => run::<u8>(op, rest, expected),
         "f64" => run::<f64>(op, rest, expected),
+        "f32" => run::<f32>(op, rest, expected),
         "i8v" => run_v::<i8>(op, rest, expected), "i16v" => run_v::<i16>(op, rest, expected), "i32v" => run_v::<i32>(op, rest, expected), "i64v" => run_v::<i64>(op, rest, expected),
         "isizev" => run_v::<isize>(op, rest, expected), "u8v" => run_v::<u8>(op, rest, expected), "u16v" => run_v::<u16>(op, rest, expected), "u32v" => run_v::<u32>(op, rest, expected),
         "u64v" => run_v::<u64>(op, rest, expected), "usizev" => run_v::<usize>(op, rest, expected), "f32v" => run_v::<f32>(op, rest, expected), "f64v" => run_v::<f64>(op, rest, expected),
@@ -586,6 +705,256 @@ fn gen_streams(out: &mut dyn FnMut(String), rng: &mut Rng, thorough: bool) {
     let _ = rng;
 }
 
+
+// ------------------------------------------------------------------------------------------------ robustness streams, part 2
+
+/// decimal text of `m * 2^e` as the exact rational `n` or `n/d` (the driver reads arbitrary-size integers, the executor converts
+/// with `big::ratio`): the only way magnitudes beyond an i64 cross the language boundary — never as floats
+fn dy(m: i64, e: i32) -> String {
+    fn dec_pow2(mut limbs: Vec<u32>, e: u32) -> String {
+        // base 10^9, little endian
+        for _ in 0..e { let mut carry = 0u64; for l in limbs.iter_mut() { let x = *l as u64 * 2 + carry; *l = (x % 1_000_000_000) as u32; carry = x / 1_000_000_000; } if carry > 0 { limbs.push(carry as u32); } }
+        let mut s = format!("{}", limbs.last().unwrap());
+        for l in limbs.iter().rev().skip(1) { s.push_str(&format!("{:09}", l)); }
+        s
+    }
+    let limbs_of = |v: u64| -> Vec<u32> { let mut l = vec![]; let mut v = v; loop { l.push((v % 1_000_000_000) as u32); v /= 1_000_000_000; if v == 0 { break } } l };
+    if m == 0 { return "0".into() }
+    let (mut m, mut e) = (m, e);
+    while e < 0 && m % 2 == 0 { m /= 2; e += 1; }
+    let sign = if m < 0 { "-" } else { "" };
+    if e >= 0 { format!("{sign}{}", dec_pow2(limbs_of(m.unsigned_abs()), e as u32)) }
+    else { format!("{sign}{}/{}", m.unsigned_abs(), dec_pow2(vec![1], (-e) as u32)) }
+}
+fn pow10(k: u32) -> String { format!("1{}", "0".repeat(k as usize)) }
+fn neg(s: &str) -> String { if s == "0" { s.into() } else if let Some(r) = s.strip_prefix('-') { r.into() } else { format!("-{s}") } }
+
+/// the element types in an order in which every neighbour differs and integer -> float, narrow -> wide float, float -> integer all occur
+const ROTATION: [&str; 11] = ["i32", "f64", "u8", "f64", "f32", "f64", "i64", "f32", "i32", "f64", "u8"];
+const ROTATION_V: [&str; 12] = ["i64", "f64v", "u8", "f64", "i8v", "f32v", "i32", "u64v", "f32", "usizev", "f64", "i64v"];
+
+fn gen_streams2(out: &mut dyn FnMut(String), rng: &mut Rng, thorough: bool) {
+    let ends = ["none", "true", "false"];
+    // ---- 6d. statics of a generic fn are shared by all element types: the SAME arguments through all element types back to back
+    let counts = ["none", "0", "1", "2", "3", "4", "5", "7", "11", "31", "37", "49", "50", "64"];
+    for (s, t) in [("0", "10"), ("0", "1"), ("2", "3"), ("1", "255"), ("0", "59"), ("10", "0"), ("3", "3"), ("0", "7"), ("5", "200")] {
+        for n in counts { for e in ends { for ty in ROTATION { out(format!("linspace {ty} {s} {t} {n} {e}")); } } }
+    }
+    for (s, t) in [("1", "200"), ("1", "128"), ("2", "2"), ("200", "1"), ("0", "5"), ("3", "100"), ("5", "0")] {
+        for n in ["none", "0", "1", "2", "3", "4", "5", "7", "11", "31", "50"] { for e in ends { for ty in ROTATION { out(format!("geomspace {ty} {s} {t} {n} {e}")); } } }
+    }
+    for (s, t) in [("0", "2"), ("1", "2"), ("0", "0"), ("2", "0")] { for b in ["none", "2", "3"] {
+        for n in ["none", "0", "1", "2", "3", "4", "5", "11"] { for e in ends { for ty in ROTATION { out(format!("logspace {ty} {s} {t} {n} {e} {b}")); } } }
+    } }
+    for (s, t, st) in [("0", "10", "none"), ("0", "10", "3"), ("3", "50", "7"), ("0", "5", "0"), ("5", "0", "1"), ("0", "250", "1"), ("2", "2", "none"), ("0", "100", "12")] {
+        for ty in ROTATION { out(format!("arange {ty} {s} {t} {st}")); }
+        for ty in ROTATION { if st != "0" { out(format!("m_arange {ty} {s} {t} {st}")); } }
+    }
+    // the same count with other bounds, the same bounds with another count, directly after one another (a memo compared loosely)
+    for ty in ["f64", "f32", "i32"] {
+        for (a, b) in [(("0", "10", "4"), ("0", "10", "5")), (("0", "10", "4"), ("0", "11", "4")), (("0", "10", "4"), ("1", "10", "4")), (("1", "100", "3"), ("1", "100", "4")), (("1", "100", "3"), ("2", "100", "3"))] {
+            for e in ends {
+                for (s, t, n) in [a, b, a] { out(format!("linspace {ty} {s} {t} {n} {e}")); }
+                for (s, t, n) in [a, b, a] { out(format!("geomspace {ty} {} {t} {n} {e}", if s == "0" { "1" } else { s })); }
+                for (s, t, n) in [a, b, a] { out(format!("logspace {ty} {s} {} {n} {e} none", if t == "100" { "3" } else { t })); }
+            }
+        }
+    }
+    // structural constructors, plain and value-class types taking turns
+    for (n, m, k) in [(3usize, Some(4usize), Some(1usize)), (4, None, None), (5, Some(3), Some(2)), (7, Some(9), Some(0)), (17, Some(16), Some(3))] {
+        for ty in ROTATION_V { out(format!("eye {ty} {n} {} {}", opt_s(m), opt_s(k))); }
+        for ty in ROTATION_V { out(format!("tri {ty} {n} {} {}", opt_s(m), opt_s(k.map(|x| x as isize - 1)))); }
+        for ty in ROTATION_V { out(format!("identity {ty} {n}")); }
+        for ty in ROTATION { out(format!("m_eye {ty} {n} {} {}", opt_s(m.or(Some(n))), opt_s(k.or(Some(0))))); out(format!("m_identity {ty} {n}")); }
+    }
+    for sh in [vec![3usize, 4], vec![2, 3, 3], vec![7, 9], vec![16, 17], vec![5], vec![2, 2, 2, 3]] {
+        let (a, shs) = (tag_off(&sh, 1), show_list(&sh));
+        for ty in ROTATION_V {
+            out(format!("full {ty} {shs} 7")); out(format!("zeros {ty} {shs}")); out(format!("ones {ty} {shs}")); out(format!("full_like {ty} {a} 3")); out(format!("zeros_like {ty} {a}"));
+            if ty != "u8" || sh.iter().product::<usize>() <= 250 {
+                for k in ["none", "1", "-1"] { out(format!("tril {ty} {a} {k}")); out(format!("triu {ty} {a} {k}")); }
+                out(format!("tril_plus_triu {ty} {a} 0"));
+                if sh.len() <= 2 { out(format!("diag {ty} {a} 1")); out(format!("diag {ty} {a} none")); }
+                if sh.len() == 1 { out(format!("diagflat {ty} {a} -1")); out(format!("diag_diag {ty} {a} 2")); }
+            }
+        }
+        for ty in ROTATION { out(format!("rand {ty} {shs}")); out(format!("m_full {ty} {shs} 5")); if sh.len() <= 3 { out(format!("m_zeros {ty} {shs}")); out(format!("m_ones {ty} {shs}")); out(format!("m_rand {ty} {shs}")); } }
+    }
+    for ty in ROTATION { for inc in ["none", "true", "false"] { out(format!("vander {ty} 5:1,2,0,3,2 4 {inc}")); out(format!("vander {ty} 3:2,1,3 none {inc}")); } }
+
+    // ---- 6c. a refused call directly followed by a valid one (and back)
+    for ty in ["f64", "i32", "u8", "f32"] {
+        for l in ["geomspace # 0 5 4 none", "geomspace # 1 5 4 none", "geomspace # 5 0 4 true", "geomspace # 5 1 4 true", "arange # 0 5 0", "arange # 0 5 1", "arange # 0 5 0", "arange # 0 6 2",
+                  "tril # i3+1 none", "tril # i3,3+1 none", "triu # -:5 1", "triu # i2,3+1 1", "diag # i2,2,2+1 none", "diag # i2,2+1 none", "diag # -:5 none", "diag # i3+1 none",
+                  "vander # i2,2+1 none none", "vander # 3:1,2,3 none none", "diag # i1+1 4294967296", "diag # i2+1 1", "geomspace # 0 0 3 none", "linspace # 0 4 3 none", "logspace # 0 2 3 none none"] {
+            out(l.replace('#', ty));
+        }
+    }
+    // ---- 6b. shapes / side pairs that collide under the weak polynomial hashes: A, B, A
+    for (i, (sa, sb)) in collision_shape_pairs().into_iter().enumerate() {
+        let tys: &[&str] = if thorough { &["i64", "f64v", "u8v", "f32"] } else if i % 2 == 0 { &["i64", "u8v"] } else { &["f64v", "i32"] };
+        for ty in tys {
+            for op in ["zeros", "ones", "rand"] { if op == "rand" && ty.ends_with('v') { continue } for s in [&sa, &sb, &sa] { out(format!("{op} {ty} {}", show_list(s))); } }
+            for s in [&sa, &sb, &sa] { out(format!("full {ty} {} 9", show_list(s))); }
+            for op in ["zeros_like", "ones_like"] { for s in [&sa, &sb, &sa] { out(format!("{op} {ty} {}", tag_off(s, 1))); } }
+            for s in [&sa, &sb, &sa] { out(format!("full_like {ty} {} 4", tag_off(s, 1))); }
+            for (op, k) in [("tril", "none"), ("triu", "1"), ("tril", "-1"), ("tril_plus_triu", "0"), ("triu", "none")] { for s in [&sa, &sb, &sa] { out(format!("{op} {ty} {} {k}", tag_off(s, 1))); } }
+            if sa.len() == 2 {
+                for k in ["none", "1", "-1"] { for s in [&sa, &sb, &sa] { out(format!("diag {ty} {} {k}", tag_off(s, 1))); } }
+                for k in ["none", "0", "1"] { for s in [&sa, &sb, &sa] { out(format!("eye {ty} {} {} {k}", s[0], s[1])); } }
+                for k in ["none", "-1", "2"] { for s in [&sa, &sb, &sa] { out(format!("tri {ty} {} {} {k}", s[0], s[1])); } }
+            }
+        }
+    }
+    // counts of a sequence colliding with (count, endpoint) packed into few bits: n and n + 2^8 / 2^16, same bounds
+    for ty in ["f64", "i32"] { for n in [3usize, 4, 50] { for img in [n + 256, n + 65536] {
+        for e in ends {
+            for c in [n, img, n] { out(format!("linspace {ty} 0 10 {c} {e}")); }
+            if img < 1000 { for c in [n, img, n] { out(format!("geomspace {ty} 1 200 {c} {e}")); out(format!("logspace {ty} 0 2 {c} {e} none")); } }
+        }
+        for c in [n, img, n] { out(format!("arange {ty} 0 {c} 1")); out(format!("identity {ty} {}", c.min(300))); }
+    } } }
+
+    // ---- 8. exact values: magnitudes beyond 2^53 … f64::MAX/2 and down to the subnormals, for the float element types
+    // (integers stay inside their range: `N::from(f64)` saturates; the crate computes every sequence in f64)
+    const MAXM: i64 = (1 << 53) - 1;          // f64::MAX = MAXM * 2^971
+    const MAXM32: i64 = (1 << 24) - 1;        // f32::MAX = MAXM32 * 2^104
+    let big64: Vec<String> = vec![dy(3, 60), dy(1, 62), dy(5, 100), dy(3, 125), dy(1, 127), dy(1, 128), dy(3, 128), dy(15, 128), pow10(39), format!("5{}", "0".repeat(39)), pow10(20), pow10(40),
+                                  dy(5, 330), pow10(300), dy(3, 995), dy(MAXM, 970), dy(MAXM32, 104)];
+    let tiny64: Vec<String> = vec![dy(1, -52), dy(1, -53), dy(3, -55), dy(3, -60), dy(5, -70), dy(1, -100), dy(7, -340), dy(3, -1000), dy(1, -1022), dy(5, -1070), dy(1, -1074),
+                                   format!("1/{}", pow10(17)), format!("1/{}", pow10(20)), format!("1/{}", pow10(10)), format!("1/{}", pow10(30)), format!("1/{}", pow10(300))];
+    let big32: Vec<String> = vec![dy(3, 60), dy(5, 100), dy(3, 125), dy(1, 127), dy(MAXM32, 103), dy(MAXM32, 104)];
+    let tiny32: Vec<String> = vec![dy(1, -23), dy(1, -24), dy(3, -55), dy(5, -70), dy(3, -100), dy(1, -126)];
+    let lin_counts: &[&str] = if thorough { &["none", "0", "1", "2", "3", "4", "5", "7", "11", "50", "64"] } else { &["none", "0", "1", "2", "3", "5", "11"] };
+    for (ty, bigs, tinies) in [("f64", &big64, &tiny64), ("f32", &big32, &tiny32)] {
+        let mut pairs: Vec<(String, String)> = vec![];
+        for (i, b) in bigs.iter().enumerate() {
+            pairs.push(("0".into(), b.clone())); pairs.push((b.clone(), "0".into())); pairs.push((b.clone(), "7".into())); pairs.push((neg(b), b.clone()));
+            // the largest magnitudes only with partners of the same sign (stop - start must stay finite)
+            for c in bigs.iter().skip(i + 1).take(3) { pairs.push((b.clone(), c.clone())); pairs.push((neg(c), neg(b))); pairs.push((c.clone(), b.clone())); }
+        }
+        // |stop - start| beyond f64::MAX is outside the statement (the step overflows): drop pairs of opposite sign at the very top
+        let top = [dy(MAXM, 971)];
+        pairs.retain(|(a, b)| !(top.contains(a) || top.contains(b)));
+        for (i, t) in tinies.iter().enumerate() {
+            pairs.push(("0".into(), t.clone())); pairs.push((t.clone(), "1".into())); pairs.push((neg(t), t.clone())); pairs.push((t.clone(), "0".into()));
+            for c in tinies.iter().skip(i + 1).take(2) { pairs.push((t.clone(), c.clone())); pairs.push((neg(t), neg(c))); }
+        }
+        pairs.push((tinies[4].clone(), bigs[2].clone()));
+        for (s, t) in &pairs { for n in lin_counts { for e in ends {
+            // subnormal grids lose half a unit per step: few points there
+            let sub = s.len() > 300 || t.len() > 300;
+            if sub && !["0", "1", "2", "3", "5"].contains(n) { continue }
+            out(format!("linspace {ty} {s} {t} {n} {e}"));
+        } } }
+        // geometric sequences: both bounds of one sign, tiny / huge / across the whole range; a zero bound is refused, a tiny one is not
+        let mut gp: Vec<(String, String)> = vec![];
+        for (i, t) in tinies.iter().enumerate() {
+            gp.push((t.clone(), "1".into())); gp.push(("1".into(), t.clone())); gp.push((neg(t), "-3".into())); gp.push(("0".into(), t.clone())); gp.push((t.clone(), "0".into()));
+            for c in tinies.iter().skip(i + 1).take(3) { gp.push((t.clone(), c.clone())); gp.push((neg(c), neg(t))); }
+        }
+        for (i, b) in bigs.iter().enumerate() {
+            gp.push(("1".into(), b.clone())); gp.push((b.clone(), "3".into())); gp.push((neg(b), "-1".into()));
+            for c in bigs.iter().skip(i + 1).take(2) { gp.push((b.clone(), c.clone())); gp.push((neg(c), neg(b))); }
+        }
+        gp.push((tinies[2].clone(), bigs[1].clone())); gp.push((neg(&tinies[3]), tinies[3].clone()));
+        let geo_counts: &[&str] = if thorough { &["none", "0", "1", "2", "3", "4", "5", "7", "11", "50"] } else { &["none", "1", "2", "3", "4", "7"] };
+        for (s, t) in &gp { for n in geo_counts { for e in ends { out(format!("geomspace {ty} {s} {t} {n} {e}")); } } }
+        // logarithmic sequences: tiny exponents (values next to 1), exponents near the ends of the range
+        let mut lp: Vec<(String, String)> = vec![("300".into(), "308".into()), ("-307".into(), "-300".into()), ("-150".into(), "150".into())];
+        for (i, t) in tinies.iter().enumerate().take(if ty == "f64" { 16 } else { 6 }) {
+            lp.push(("0".into(), t.clone())); lp.push((neg(t), t.clone())); lp.push((t.clone(), "2".into()));
+            if let Some(c) = tinies.get(i + 1) { lp.push((t.clone(), c.clone())); }
+        }
+        if ty == "f32" { lp.retain(|(a, _)| a != "300" && a != "-307" && a != "-150"); lp.push(("30".into(), "38".into())); lp.push(("-37".into(), "-30".into())); lp.push(("-15".into(), "15".into())); }
+        for (s, t) in &lp { for b in ["none", "2", "3"] { for n in ["none", "1", "2", "3", "5"] { for e in ends { out(format!("logspace {ty} {s} {t} {n} {e} {b}")); } } } }
+    }
+    // i64 beyond 2^53 (every value a multiple of a power of two, so it survives the f64 image exactly)
+    for (s, t) in [(dy(3, 60), dy(1, 62)), (neg(&dy(1, 62)), dy(1, 62)), ("0".to_string(), dy(3, 60)), (dy(1, 54), dy(3, 54)), (dy(1, 62), dy(1, 54))] {
+        for n in ["none", "0", "1", "2", "3", "5", "9"] { for e in ends { out(format!("linspace i64 {s} {t} {n} {e}")); out(format!("linspace f64 {s} {t} {n} {e}")); } }
+        if !s.starts_with('-') && s != "0" { for n in ["1", "2", "3", "5"] { out(format!("geomspace i64 {s} {t} {n} none")); out(format!("geomspace f64 {s} {t} {n} none")); } }
+    }
+    // offsets that survive a narrowing cast as a small offset: c + 2^8, c + 2^16, c + 2^32 (and their negatives)
+    for c in [0usize, 1, 2] { for img in narrowing_images(c) {
+        for ty in ["i64", "f64v", "u8v"] {
+            for sh in [vec![3usize, 4], vec![4, 3], vec![2, 3, 3]] {
+                let a = tag_off(&sh, 1);
+                for k in [img as i64, -(img as i64)] { out(format!("tril {ty} {a} {k}")); out(format!("triu {ty} {a} {k}")); out(format!("tril_plus_triu {ty} {a} {k}")); if sh.len() == 2 { out(format!("diag {ty} {a} {k}")); } }
+            }
+            out(format!("eye {ty} 3 4 {img}")); out(format!("eye {ty} 4 3 {img}")); out(format!("tri {ty} 3 4 {img}")); out(format!("tri {ty} 3 4 -{img}")); out(format!("tri {ty} 4 3 -{img}"));
+        }
+    } }
+    // every trailing / leading side 1..300 (index arithmetic by a float reciprocal first fails at 49)
+    let side_hi = if thorough { 300usize } else { 130 };
+    for l in (1..=side_hi).chain([191usize, 211, 256, 257, 300]) {
+        for (ty, k) in [("i64", (l as i64) / 3), ("f64v", -1), ("i64", 1 - (l as i64) / 2)] {
+            out(format!("tril {ty} {} {k}", tag_off(&[3, l], 1))); out(format!("triu {ty} {} {k}", tag_off(&[l, 3], 1)));
+        }
+        out(format!("tril_plus_triu u8v {} 0", tag_off(&[2, 2, l], 1)));
+        out(format!("diag i64 {} {}", tag_off(&[3, l], 1), l / 2)); out(format!("diag f64v {} -1", tag_off(&[l, 2], 1)));
+        out(format!("eye i64 3 {l} {}", l / 2)); out(format!("eye i32 {l} 2 0")); out(format!("tri i64 2 {l} {}", l as i64 - 2)); out(format!("tri f64v {l} 3 -1"));
+        if l <= 64 || l % 16 == 1 { out(format!("diag i64 {} 1", tag_off(&[l], 1))); out(format!("identity u8v {l}")); out(format!("vander i64 {} 3 none", tag_off(&[l], 0))); }
+    }
+    // counts exactly 31, 37, 49, 1000, 1001 and primes above 17
+    for n in [19usize, 23, 29, 31, 37, 41, 43, 47, 49, 53, 97, 101, 251, 257, 1000, 1001, 1009] { for e in ends { for ty in ["f64", "i32", "f32"] {
+        out(format!("linspace {ty} 0 1 {n} {e}")); out(format!("linspace {ty} -3 1000 {n} {e}")); out(format!("geomspace {ty} 1 200 {n} {e}")); out(format!("logspace {ty} 0 2 {n} {e} none"));
+    } } out(format!("arange i64 0 {n} 1")); out(format!("arange f64 0 {} 2", 2 * n)); }
+
+    // ---- 10. ranks 5..8
+    for sh in [vec![1usize, 2, 1, 2, 1, 2, 3, 3], vec![2, 1, 1, 1, 2, 2, 3, 2], vec![2, 1, 2, 1, 3, 4], vec![1, 1, 1, 1, 1, 1, 1, 1], vec![2, 2, 2, 2, 2, 2, 2], vec![3, 1, 2, 2, 0, 2]] {
+        let (a, shs) = (tag_off(&sh, 1), show_list(&sh));
+        for ty in ["i64", "f64v", "u8v", "f32"] {
+            if ty == "f32" && sh.iter().product::<usize>() > 250 { continue }
+            for k in [-2isize, -1, 0, 1, 2] { out(format!("tril {ty} {a} {k}")); out(format!("triu {ty} {a} {k}")); out(format!("tril_plus_triu {ty} {a} {k}")); }
+            out(format!("full {ty} {shs} 3")); out(format!("zeros {ty} {shs}")); out(format!("ones {ty} {shs}")); out(format!("full_like {ty} {a} 5")); out(format!("zeros_like {ty} {a}")); out(format!("ones_like {ty} {a}"));
+            out(format!("diagflat {ty} {a} 1")); out(format!("diag {ty} {a} none"));
+        }
+        out(format!("rand f64 {shs}")); out(format!("m_full i32 {shs} 2"));
+    }
+
+    // ---- 7. huge results: 16 384 … 140 000 elements (the model driver is linear for every constructor)
+    let mut huge = huge_shapes();
+    huge.extend([vec![1500, 3, 3], vec![130, 127], vec![2, 3, 5001], vec![3, 33001], vec![33001, 3]]);
+    for (i, sh) in huge.iter().enumerate() {
+        let cnt: usize = sh.iter().product();
+        if cnt > 100_000 && !thorough && i % 2 == 1 { continue }
+        let (a, shs) = (tag_off(sh, 1), show_list(sh));
+        let (r, c) = if sh.len() >= 2 { (sh[sh.len() - 2] as isize, sh[sh.len() - 1] as isize) } else { (1, 1) };
+        for ty in ["i64", "f64v", "u8v", "f64"] {
+            let lean = ty == "f64" || (ty == "u8v" && !thorough);
+            out(format!("zeros {ty} {shs}")); out(format!("full {ty} {shs} 7")); out(format!("full_like {ty} {a} 4"));
+            if !lean { out(format!("ones {ty} {shs}")); out(format!("zeros_like {ty} {a}")); out(format!("ones_like {ty} {a}")); out(format!("m_full {ty} {shs} 9")); }
+            if ty == "f64" || ty == "i64" { out(format!("rand {ty} {shs}")); if sh.len() <= 3 { out(format!("m_zeros {ty} {shs}")); out(format!("m_ones {ty} {shs}")); } }
+            if sh.len() >= 2 {
+                let ks: Vec<isize> = if lean { vec![0, c - 2] } else { vec![0, 1, -1, c / 2, -(r / 2), c - 1, 1 - r, 69] };
+                for k in &ks { out(format!("tril {ty} {a} {k}")); out(format!("triu {ty} {a} {k}")); }
+                out(format!("tril {ty} {a} none")); out(format!("tril_plus_triu {ty} {a} {}", ks[ks.len() - 1]));
+                if sh.len() == 2 { for k in [0isize, 1, -1, c / 2, 1 - r] { out(format!("diag {ty} {a} {k}")); } }
+            } else { out(format!("tril {ty} {a} 0")); out(format!("triu {ty} {a} none")); }
+        }
+    }
+    for ty in ["i64", "f64v", "u8v", "f64"] {
+        for (n, m, k) in [(300usize, 301usize, 4usize), (130, 130, 0), (129, 131, 130), (2, 70000, 1), (70000, 2, 1), (2, 70000, 65537), (370, 370, 3)] {
+            out(format!("eye {ty} {n} {m} {k}")); out(format!("tri {ty} {n} {m} {k}")); out(format!("tri {ty} {n} {m} -{k}"));
+            if ty == "i64" || ty == "f64" { out(format!("m_eye {ty} {n} {m} {k}")); }
+        }
+        for n in [129usize, 300, 370] { out(format!("identity {ty} {n}")); out(format!("diag {ty} {} 0", tag_off(&[n], 1))); out(format!("diag {ty} {} -3", tag_off(&[n - 3], 1))); out(format!("diagflat {ty} {} 2", tag_off(&[n / 13, 13], 1))); }
+        out(format!("diag_diag {ty} {} 1", tag_off(&[300], 1)));
+    }
+    for ty in ["i64", "f64", "i32", "f32"] {
+        let v: Vec<i64> = (0..16385).map(|i| [1i64, 2, 0, 1, 2, 2, 3][i % 7]).collect();
+        for inc in ["none", "true"] { out(format!("vander {ty} 16385:{} 3 {inc}", show_list(&v))); }
+        out(format!("vander {ty} 70001:{} 2 false", show_list(&(0..70001).map(|i| [2i64, 1, 3][i % 3]).collect::<Vec<i64>>())));
+        for n in [16385usize, 20011, 33001, 65537, 70001, 131073] { for e in ends {
+            if n > 70001 && e != "none" { continue }
+            out(format!("linspace {ty} 0 1 {n} {e}")); out(format!("linspace {ty} -3 1000 {n} {e}"));
+            if n <= 33001 || (thorough && n <= 70001) { out(format!("geomspace {ty} 1 200 {n} {e}")); out(format!("logspace {ty} 0 2 {n} {e} none")); }
+        } }
+        if ty != "f32" { for (s, t, st) in [(0i64, 70001i64, "1"), (0, 140001, "2"), (5, 1000003, "7"), (-16385, 16385, "none"), (0, 131073, "1")] { out(format!("arange {ty} {s} {t} {st}")); out(format!("m_arange {ty} {s} {t} {}", st)); } }
+    }
+    let _ = rng;
+}
+
 fn gen(tier: &str, seed: u64, out: &mut dyn FnMut(String)) {
     let thorough = tier == "thorough";
     let hi: usize = if thorough { 8 } else { 6 };          // matrix sides 0..=hi
@@ -598,7 +967,12 @@ fn gen(tier: &str, seed: u64, out: &mut dyn FnMut(String)) {
     // ---- corpus of past failures (found by this check on the pinned tree)
     for l in ["arange u8 0 5 0", "linspace u8 0 1 0 none", "geomspace u8 2 2 0 none", "logspace f64 0 3 0 true 2", "tril i32 i3+1 none", "triu i32 i3+1 1", "tril i32 i0,3+1 none", "tril i32 i3,0+1 0", "triu f64 i2,0,2+1 -1", "tril i32 -:5 none",
               // round-2 seeded change: masks through a multiplication (f64 round trip): kept i64 beyond 2^53, removed inf / NaN / -0.0
-              "tril i64v i2,2+1 none", "triu f64v i2,2+1 none", "tril_plus_triu u64v i3,3+1 0", "tril f32v i2,3+2 0"] { out(l.to_string()); }
+              "tril i64v i2,2+1 none", "triu f64v i2,2+1 none", "tril_plus_triu u64v i3,3+1 0", "tril f32v i2,3+2 0",
+              // round-3 seeded changes: the same interval through two element types back to back (memo shared by all monomorphisations),
+              // a start beyond 2^127, bounds below f64::EPSILON
+              "linspace i32 0 10 4 none", "linspace f64 0 10 4 none", "linspace f32 0 10 4 none", "linspace f64 0 10 4 none"] { out(l.to_string()); }
+    out(format!("linspace f64 {} {} 5 none", pow10(39), format!("5{}", "0".repeat(39))));
+    out(format!("geomspace f64 1/{} 1/{} 3 none", pow10(20), pow10(10)));
 
     for ty in TYPES {
         let signed = ty != "u8";
@@ -708,6 +1082,9 @@ fn gen(tier: &str, seed: u64, out: &mut dyn FnMut(String)) {
     // ---- robustness streams: value classes on every numeric type (bit-wise), sizes beyond the small scope, zero-length axes
     let mut rng = Rng::new(seed ^ 0xC16);
     gen_streams(out, &mut rng, thorough);
+    // ---- robustness streams, part 2: hidden state (types back to back, refused-then-valid, colliding shapes), extreme magnitudes,
+    // exact lengths and offsets, ranks to 8, huge results
+    gen_streams2(out, &mut rng, thorough);
     // ---- seeded random stream beyond the exhaustive scope
     let n_rand = if thorough { 6000 } else { 1200 };
     for _ in 0..n_rand {
